@@ -35,6 +35,15 @@ type Ctx struct {
 	Sample     any      // optional: what to write as the sample (defaults to the case)
 	Replaying  bool
 	sub        string
+	counts     map[string]int
+}
+
+// Count adds n to a named counter that ends up in the evidence coverage object (summed over cases and shards).
+func (x *Ctx) Count(name string, n int) {
+	if x.counts == nil {
+		x.counts = map[string]int{}
+	}
+	x.counts[name] += n
 }
 
 // Class adds a histogram label.
@@ -202,6 +211,13 @@ func (r *Recorder) record(c any, x *Ctx) (unlistedKnown string) {
 	}
 	for _, cl := range x.Classes {
 		r.classes[cl]++
+	}
+	for k, v := range x.counts {
+		if old, ok := r.extra[k].(int); ok {
+			r.extra[k] = old + v
+		} else {
+			r.extra[k] = v
+		}
 	}
 	for _, k := range x.known {
 		f, ok := r.findings[k]
@@ -463,4 +479,11 @@ func Per(q, th int) int {
 		n = 1
 	}
 	return n
+}
+
+// WriteReplay stores a failing case found outside rapid (native fuzz targets) in the same
+// replay format and place; it returns the path.
+func WriteReplay(id, sub string, c any, msg string) string {
+	r := getRecorder(id, sub, "")
+	return r.writeReplay(sub, c, msg)
 }
